@@ -419,4 +419,44 @@ theorem nodeOpLocked_ok (w : World) (node : String) :
 theorem traceOK_iff (t : Trace) : traceOK t = true ↔ R [] t = some [] := by
   simp [traceOK, wellOrdered, R]
 
+theorem leading_split : ∀ (t : Trace), ∃ rest, t = (leadingAcqs t).map .acq ++ rest := by
+  intro t
+  induction t with
+  | nil => exact ⟨[], rfl⟩
+  | cons e es ih =>
+    cases e with
+    | acq k => obtain ⟨rest, h⟩ := ih; exact ⟨rest, by simp only [leadingAcqs, List.map_cons, List.cons_append]; rw [← h]⟩
+    | rel k => exact ⟨.rel k :: es, by simp [leadingAcqs]⟩
+
+theorem run_acqs_held : ∀ (ks held h' : List Key), R held (ks.map .acq) = some h' → h' = ks.reverse ++ held := by
+  intro ks
+  induction ks with
+  | nil => intro held h' h; simp [R, run] at h; simp [h]
+  | cons k ks ih =>
+    intro held h' h
+    simp only [R, List.map_cons, run, stepOK] at h
+    split at h
+    · cases h
+    · rename_i hs heq
+      split at heq
+      · injection heq with heq; subst heq
+        have := ih _ _ h
+        simp [this]
+      · cases heq
+
+/-- a failed acquisition leaves a disciplined episode -/
+theorem failTrunc_ok (k : Nat) (t : Trace) (h : traceOK t = true) : traceOK (failTrunc k t) = true := by
+  rw [traceOK_iff] at h ⊢
+  obtain ⟨rest, hsplit⟩ := leading_split t
+  have hk : (leadingAcqs t) = (leadingAcqs t).take k ++ (leadingAcqs t).drop k := (List.take_append_drop k _).symm
+  rw [hsplit, hk, List.map_append, List.append_assoc] at h
+  simp only [R, run_append] at h
+  cases hr : run keyLt nodeOpRule [] (((leadingAcqs t).take k).map .acq) with
+  | none => rw [hr] at h; simp at h
+  | some h' =>
+    have e := run_acqs_held _ _ _ hr
+    simp only [failTrunc, R, run_append, hr, Option.bind_some]
+    rw [e]
+    exact run_rel_all _ []
+
 end Eru.Lock
